@@ -1,5 +1,7 @@
 import MdkVerif.Model.Client
+import MdkVerif.Model.Proposal
 import MdkVerif.Proofs.Client
+import MdkVerif.Proofs.Proposal
 import MdkVerif.Props.C06
 /-
   C05 — Only admins change roster or group data; identities never change.  Decision logic of
@@ -291,5 +293,414 @@ theorem witness_promoted_member_accepted :
     (deliver wOne { wLateRename with path := [] } 0).2 = .err eNonAdmin ∧
     (deliver (deliver wOne wPromote 0).1 wLateRename 0).2 = .commit ∧
     (deliver (deliver wOne wPromote 0).1 wLateRename 0).1.g.name = 7 := by decide
+
+/-! ## Proposals: `process_proposal` for every proposal type, and what commit builders sweep (Model/Proposal.lean)
+
+    The theorems above speak about `Model.Client` (leave proposals only, every referenced proposal held).  From here on the
+    model is `Model.Proposal`: the world engine's driver runs it on every generated history, with stand-alone Remove / Add /
+    GroupContextExtensions / PSK / Update proposals crafted by members with the MLS library. -/
+section Proposals
+open MdkVerif.Proposal
+
+/-- the auto-commit can be built: no commit is pending and nothing queued (after storing the proposal) removes the receiver -/
+def canBuild (c : Cl) (e : Ev) (p : PK) : Bool := !(c.g.pending.isSome) && !(storeRemoves (storeProp c.g e.sender p) c.id)
+
+/-- **nonadmin_proposal_refused_kinds** — the decision table of `process_proposal`, as equivalences.  The PROPOSER's role
+    appears nowhere: only the proposal's type, whether it names its own sender, and whether the RECEIVER is an admin.
+    * ignored (nothing stored): Update, GroupContextExtensions, everything else;
+    * stored pending: every Add; every Remove of somebody else; a member's own Remove at a non-admin receiver;
+    * auto-committed: a member's own Remove at an admin receiver that can build the commit;
+    * reported `Unprocessable`: the same when the commit cannot be built. -/
+theorem nonadmin_proposal_refused_kinds (nx : Nat) (c : Cl) (e : Ev) (p : PK) :
+    ((processProposal nx c e p).2 = .ignored ↔ (p = .update ∨ p = .gce ∨ p = .other)) ∧
+    ((processProposal nx c e p).2 = .pending ↔
+        ((∃ w, p = .add w) ∨ ∃ t, p = .remove t ∧ ¬ (t = e.sender ∧ isAdmin c.g c.id = true))) ∧
+    ((∃ ne, (processProposal nx c e p).2 = .proposalCommitted ne) ↔
+        (p = .remove e.sender ∧ isAdmin c.g c.id = true ∧ canBuild c e p = true)) ∧
+    ((processProposal nx c e p).2 = .unprocessable ↔
+        (p = .remove e.sender ∧ isAdmin c.g c.id = true ∧ canBuild c e p = false)) := by
+  cases p with
+  | update => simp [processProposal]
+  | gce => simp [processProposal]
+  | other => simp [processProposal]
+  | add w => simp [processProposal]
+  | remove t =>
+    by_cases ht : t = e.sender
+    · subst ht
+      cases ha : isAdmin c.g c.id with
+      | false => simp [processProposal, ha]
+      | true =>
+        cases hb : canBuild c e (.remove e.sender) with
+        | true =>
+          have hb' : (c.g.pending.isSome || storeRemoves (storeProp c.g e.sender (.remove e.sender)) c.id) = false := by
+            simp only [canBuild, Bool.and_eq_true, Bool.not_eq_true'] at hb
+            simp [hb.1, hb.2]
+          have hp : (storeProp c.g e.sender (.remove e.sender)).pending = c.g.pending := by simp [storeProp]
+          simp [processProposal, ha, hp, hb']
+        | false =>
+          have hb' : (c.g.pending.isSome || storeRemoves (storeProp c.g e.sender (.remove e.sender)) c.id) = true := by
+            simp only [canBuild, Bool.and_eq_false_iff, Bool.not_eq_false'] at hb
+            rcases hb with hb | hb <;> simp [hb]
+          have hp : (storeProp c.g e.sender (.remove e.sender)).pending = c.g.pending := by simp [storeProp]
+          simp [processProposal, ha, hp, hb', failUnprocessable]
+    · have ht' : (t == e.sender) = false := by simpa using ht
+      simp [processProposal, ht', ht]
+
+/-- … in particular a NON-admin member's Remove of another member, and anybody's Add, are stored in the proposal store of
+    every receiver — admin or not — where the next commit builder finds them (the real code does NOT keep the store to
+    members' own requests) -/
+theorem foreign_proposal_stored (nx : Nat) (c : Cl) (e : Ev) (t : Nat) (ht : t ≠ e.sender) :
+    (processProposal nx c e (.remove t)).2 = .pending ∧ QP.rm e.sender t ∈ (processProposal nx c e (.remove t)).1.g.xq ∧
+    ∀ w, (processProposal nx c e (.add w)).2 = .pending ∧ QP.add e.sender w ∈ (processProposal nx c e (.add w)).1.g.xq := by
+  have ht' : (t == e.sender) = false := by simpa using ht
+  refine ⟨by simp [processProposal, ht'], by simp [processProposal, ht', storeProp, setRec], ?_⟩
+  intro w
+  exact ⟨by simp [processProposal], by simp [processProposal, storeProp, setRec]⟩
+
+/-- **auto_commit_only_self_leave** — the only proposal a receiver turns into a commit by itself is a member's Remove of
+    ITS OWN leaf, and only an admin receiver with no commit pending does so.  The staged commit is the receiver's, created
+    in its current state, carries no change of its own, and references exactly the store: the sender's leave, the leaves
+    queued before (`who`: m ∈ who ↔ m = sender ∨ m queued), never the receiver itself — and whatever else is queued
+    (`sweptX` = the foreign proposals in the store: see `auto_commit_exact`) -/
+theorem auto_commit_only_self_leave (nx : Nat) (c : Cl) (e : Ev) (p : PK) (ne : Ev)
+    (h : (processProposal nx c e p).2 = .proposalCommitted ne) :
+    p = .remove e.sender ∧ isAdmin c.g c.id = true ∧ c.g.pending = none ∧
+    ne.sender = c.id ∧ ne.path = c.g.path ∧ ne.kind = .commit .selfUpdate ((e.sender :: c.g.props).eraseDups) ∧
+    ne.sweptX = c.g.xq ∧ (processProposal nx c e p).1.g.pending = some ne ∧
+    (∀ m, m ∈ (e.sender :: c.g.props).eraseDups ↔ (m = e.sender ∨ m ∈ c.g.props)) ∧
+    c.id ∉ (e.sender :: c.g.props).eraseDups ∧ c.id ∉ xTargets c.g.xq := by
+  obtain ⟨hp, ha, hb⟩ := ((nonadmin_proposal_refused_kinds nx c e p).2.2.1).mp ⟨ne, h⟩
+  subst hp
+  simp only [canBuild, Bool.and_eq_true, Bool.not_eq_true'] at hb
+  have hpend : c.g.pending = none := by
+    cases hpc : c.g.pending with
+    | none => rfl
+    | some x => rw [hpc] at hb; simp at hb
+  have hsp : (storeProp c.g e.sender (.remove e.sender)).pending = c.g.pending := by simp [storeProp]
+  have hb' : (c.g.pending.isSome || storeRemoves (storeProp c.g e.sender (.remove e.sender)) c.id) = false := by simp [hb.1, hb.2]
+  have hne : ne = autoCommitEv c (storeProp c.g e.sender (.remove e.sender)) nx := by
+    simp only [processProposal, beq_self_eq_true, ha, Bool.and_self, if_true, hsp, hb', Bool.false_eq_true, if_false] at h
+    injection h with h; exact h.symm
+  have hsr := hb.2
+  simp only [storeRemoves, storeProp, beq_self_eq_true, if_true, Bool.or_eq_false_iff] at hsr
+  refine ⟨rfl, ha, hpend, by rw [hne]; rfl, by rw [hne]; simp [autoCommitEv, storeProp], by rw [hne]; simp [autoCommitEv, storeProp],
+    by rw [hne]; simp [autoCommitEv, storeProp], ?_, by intro m; simp, by simpa using hsr.1, by simpa using hsr.2⟩
+  simp only [processProposal, beq_self_eq_true, ha, Bool.and_self, if_true, hsp, hb', Bool.false_eq_true, if_false, hne]
+  simp [setRec]
+
+/-- what merging that commit does to the roster: the leavers go; and — the part that is NOT a member's own request — so does
+    every target of a queued foreign Remove, and everybody a queued Add names comes in -/
+theorem auto_commit_exact (c : Cl) (g1 : GState) (nx mp : Nat) (g : GState) :
+    (mergeCommitP mp g (autoCommitEv c g1 nx)).members = applyX (g.members.filter (fun m => !(g1.props.contains m))) g1.xq := by
+  simp [mergeCommitP, mergeCommit, autoCommitEv, applyBody]
+
+/-- with nothing foreign queued the auto-commit removes EXACTLY the members that asked to leave -/
+theorem auto_commit_exact_partial (c : Cl) (g1 : GState) (nx mp : Nat) (g : GState) (hx : g1.xq = []) :
+    (mergeCommitP mp g (autoCommitEv c g1 nx)).members = g.members.filter (fun m => !(g1.props.contains m)) := by
+  rw [auto_commit_exact, hx, applyX_nil]
+
+/-- the full statement — "an automatic commit removes only members that asked to leave and adds nobody" — is FALSE of the
+    code: a queued foreign proposal is carried out by the admin's auto-commit of somebody else's leave
+    (finding autocommit-sweeps-foreign-proposal, corpus/C05/autocommit_sweeps_foreign.trace) -/
+def auto_commit_exact_full : Prop :=
+  ∀ (nx : Nat) (c : Cl) (x : PEv) (ne : Ev), (deliverP c x nx).2 = .proposalCommitted ne →
+    ∀ m, (m ∈ (mergeP (deliverP c x nx).1).1.g.members ↔ (m ∈ c.g.members ∧ m ≠ x.e.sender ∧ m ∉ c.g.props))
+
+/-- admin 0, members 0..3; the non-admin 1 crafts Remove(3) and Add(9), then 2 asks to leave: admin 0's auto-commit removes
+    2 AND 3 and adds 9 -/
+def wAdmin0 : Cl := initCl 0 false 5 [0, 1, 2, 3] [0] 1
+def wXRemove : PEv := craftProp (initCl 1 false 5 [0, 1, 2, 3] [0] 1) 1 10 11 (.remove 3)
+def wXAdd : PEv := craftProp (initCl 1 false 5 [0, 1, 2, 3] [0] 1) 2 11 12 (.add 9)
+def wLeave2 : PEv := { e := { n := 3, ts := 12, idnum := 13, cipher := 3, sender := 2, path := [], kind := .leave } }
+def wAdminQueued : Cl := (deliverP (deliverP wAdmin0 wXRemove 0).1 wXAdd 0).1
+
+theorem witness_autocommit_sweeps_foreign :
+    (deliverP wAdmin0 wXRemove 0).2 = .pending ∧ (deliverP (deliverP wAdmin0 wXRemove 0).1 wXAdd 0).2 = .pending ∧
+    wAdminQueued.g.members = [0, 1, 2, 3] ∧ wAdminQueued.g.xq = [QP.add 1 9, QP.rm 1 3] ∧
+    (match (deliverP wAdminQueued wLeave2 4).2 with | .proposalCommitted _ => true | _ => false) = true ∧
+    (mergeP (deliverP wAdminQueued wLeave2 4).1).1.g.members = [0, 1, 9] := by decide
+
+theorem auto_commit_exact_full_false : ¬ auto_commit_exact_full := by
+  intro h
+  have h2 := h 4 wAdminQueued wLeave2 _ (show (deliverP wAdminQueued wLeave2 4).2 = .proposalCommitted (autoCommitEv (withSecret wAdminQueued) (storeProp { (withSecret wAdminQueued).g with consumed := [3] } 2 (.remove 2)) 4) by decide) 3
+  revert h2; decide
+
+/-- **proposal_never_changes_roster** — a proposal of ANY type (own leave, Remove of somebody else, Add, Update,
+    GroupContextExtensions, PSK, …), whatever `process_proposal` answers, changes neither the epoch / MLS state, nor the member
+    set, nor any field of the group data (`proposal_inert` is the special case of a leave over `Model.Client`) -/
+theorem proposal_never_changes_roster (retry : Cl → Option (Cl × Res)) (nx : Nat) (c : Cl) (x : PEv) (p : PK)
+    (hk : propKind x = some p) :
+    (step1P retry nx c x).1.g.path = c.g.path ∧ (step1P retry nx c x).1.g.members = c.g.members ∧
+    (step1P retry nx c x).1.g.admins = c.g.admins ∧ (step1P retry nx c x).1.g.name = c.g.name ∧
+    (step1P retry nx c x).1.g.desc = c.g.desc ∧ (step1P retry nx c x).1.g.relays = c.g.relays ∧
+    (step1P retry nx c x).1.g.nid = c.g.nid := by
+  have hf := ensureSecret_fields
+  have hd := ensureSecret_data
+  have hw : (withSecret c).g.path = c.g.path ∧ (withSecret c).g.members = c.g.members ∧
+      (withSecret c).g.admins = c.g.admins ∧ (withSecret c).g.name = c.g.name ∧
+      (withSecret c).g.desc = c.g.desc ∧ (withSecret c).g.relays = c.g.relays ∧ (withSecret c).g.nid = c.g.nid := by
+    simp [withSecret, (hf c.g).1, (hf c.g).2.1, (hf c.g).2.2.1, (hf c.g).2.2.2.1, (hd c.g).1, (hd c.g).2.1, (hd c.g).2.2.1]
+  -- `process_proposal` itself: every branch only touches the store, the pending commit, the secret cache and the records
+  have hpp : ∀ (c' : Cl) (e : Ev), (processProposal nx c' e p).1.g.path = c'.g.path ∧ (processProposal nx c' e p).1.g.members = c'.g.members ∧
+      (processProposal nx c' e p).1.g.admins = c'.g.admins ∧ (processProposal nx c' e p).1.g.name = c'.g.name ∧
+      (processProposal nx c' e p).1.g.desc = c'.g.desc ∧ (processProposal nx c' e p).1.g.relays = c'.g.relays ∧
+      (processProposal nx c' e p).1.g.nid = c'.g.nid := by
+    intro c' e
+    unfold processProposal
+    cases p with
+    | update => simp [setRec]
+    | gce => simp [setRec]
+    | other => simp [setRec]
+    | add w => simp [setRec, storeProp]
+    | remove t =>
+      simp only
+      have hs : ∀ g : GState, (storeProp g e.sender (.remove t)).path = g.path ∧ (storeProp g e.sender (.remove t)).members = g.members ∧
+          (storeProp g e.sender (.remove t)).admins = g.admins ∧ (storeProp g e.sender (.remove t)).name = g.name ∧
+          (storeProp g e.sender (.remove t)).desc = g.desc ∧ (storeProp g e.sender (.remove t)).relays = g.relays ∧
+          (storeProp g e.sender (.remove t)).nid = g.nid := by
+        intro g; unfold storeProp; simp only; split <;> simp
+      split
+      · split
+        · simpa [failUnprocessable, recordFailure, setRec] using hs c'.g
+        · simpa [setRec] using hs c'.g
+      · simpa [setRec] using hs c'.g
+  unfold step1P
+  simp only
+  split
+  · simp [recordFailure, setRec]
+  · split
+    · simp [recordFailure, setRec]
+    · split
+      · simpa [recordFailure, setRec] using hw
+      · simp only [hk]
+        split
+        · simpa [failUnprocessable, recordFailure, setRec] using hw
+        · split
+          · unfold ownMessage
+            repeat' split
+            all_goals first | (simpa [setRec, returnOwnCommit, syncRec] using hw)
+          · split
+            · simpa [failUnprocessable, recordFailure, setRec] using hw
+            · have := hpp { withSecret c with g := { (withSecret c).g with consumed := x.e.cipher :: (withSecret c).g.consumed } } x.e
+              simpa [hw.1, hw.2.1, hw.2.2.1, hw.2.2.2.1, hw.2.2.2.2.1, hw.2.2.2.2.2.1, hw.2.2.2.2.2.2] using this
+
+/-! ### what the commit builders sweep: only members' own requests to leave — IF nothing else was ever stored -/
+
+/-- the operations of a client (deliveries of honest events — whatever mdk's own API sends, or proposals that are not
+    stored as a foreign request — and every local call) -/
+inductive POp where
+  | deliver (x : PEv) (nx : Nat)
+  | send (n ts idn mid mts tok : Nat)
+  | selfUpdate (n ts idn : Nat)
+  | data (n ts idn : Nat) (u : DataUpd)
+  | remove (n ts idn : Nat) (who : List Nat)
+  | add (n ts idn : Nat) (who : List Nat)
+  | leave (n ts idn : Nat)
+  | merge | clear | restart
+  | join (mp : Nat) (g : GState) (e : Ev)
+
+def POp.run (c : Cl) : POp → Cl
+  | .deliver x nx => (deliverP c x nx).1
+  | .send n ts idn mid mts tok => (sendP c n ts idn mid mts tok).1
+  | .selfUpdate n ts idn => (stageCommitP c n ts idn .selfUpdate false).1
+  | .data n ts idn u => (updateDataP c n ts idn u).1
+  | .remove n ts idn who => (removeMembersP c n ts idn who).1
+  | .add n ts idn who => (addMembersP c n ts idn who).1
+  | .leave n ts idn => (Client.leave c n ts idn).1
+  | .merge => (mergeP c).1
+  | .clear => (Client.clear c).1
+  | .restart => (Client.restart c).1
+  | .join mp g e => Client.join c (welcomeStateP mp g e)
+
+/-- the hypothesis on a history: every delivered proposal is honest (`Honest`: not a Remove of another member, not an Add),
+    every member whose own Remove is delivered is in `L`, and the client only calls `leave_group` if it is in `L` itself -/
+def POp.ok (L : Nat → Prop) (c : Cl) : POp → Prop
+  | .deliver x _ => Honest x ∧ LeaverIn L x
+  | .leave _ _ _ => L c.id
+  | _ => True
+
+theorem pso_step (L : Nat → Prop) (c : Cl) (o : POp) (h : PropsSelfOnly L c) (ho : o.ok L c) : PropsSelfOnly L (o.run c) := by
+  cases o with
+  | deliver x nx => exact pso_deliverNP 3 nx c x h ho.1 ho.2
+  | send n ts idn mid mts tok => exact pso_sendP c n ts idn mid mts tok h
+  | selfUpdate n ts idn => exact pso_stageCommitP c n ts idn _ _ h
+  | data n ts idn u => exact pso_updateDataP c n ts idn u h
+  | remove n ts idn who => exact pso_removeMembersP c n ts idn who h
+  | add n ts idn who => exact pso_addMembersP c n ts idn who h
+  | leave n ts idn => exact pso_leave c n ts idn h ho
+  | merge => exact pso_mergeP c h
+  | clear => exact pso_clear c h
+  | restart => exact pso_restart c h
+  | join mp g e => exact pso_join c _ h (selfOnly_welcomeStateP mp g e)
+
+/-- every operation of the history is admissible in the state it is applied to -/
+def okRun (L : Nat → Prop) : Cl → List POp → Prop
+  | _, [] => True
+  | c, o :: l => o.ok L c ∧ okRun L (o.run c) l
+
+/-- **PropsSelfOnly is an invariant** of every history over all client operations (process_message with rollback and
+    re-processing, create_message, every commit builder, leave, merge / clear, restart, joining by welcome): nothing but
+    leaves of members in `L` is ever queued, staged, or kept in a snapshot -/
+theorem propsSelfOnly_reachable (L : Nat → Prop) (c : Cl) (l : List POp) (h : PropsSelfOnly L c) (hl : okRun L c l) :
+    PropsSelfOnly L (l.foldl POp.run c) := by
+  induction l generalizing c with
+  | nil => exact h
+  | cons o l ih => exact ih (o.run c) (pso_step L c o h hl.1) hl.2
+
+/-- **admin_op_exact** — the precise form of "an admin's operation changes exactly what it names": after ANY history of
+    honest events, whatever an admin's `update_group_data` / `add_members` / `remove_members` (or anybody's `self_update`)
+    stages carries the named change `b` and, by reference, exactly the leaves queued at that moment — Removes that members in
+    `L` sent for THEIR OWN leaf — and nothing else (`sweptX = []`).  The sweep can thus only complete a member's own request to
+    leave, the exception the property allows.  The hypothesis is needed and the code does not enforce it: see
+    `propsSelfOnly_full_false` / `admin_op_exact_P_full_false` (finding proposal-sweep). -/
+theorem admin_op_exact (L : Nat → Prop) (c0 : Cl) (l : List POp) (h0 : PropsSelfOnly L c0) (hl : okRun L c0 l)
+    (n ts idn : Nat) (e : Ev) :
+    let c := l.foldl POp.run c0
+    (∀ u, (updateDataP c n ts idn u).2 = .ev e →
+        e.kind = .commit (.setData (applyUpd (dataOf c.g) u)) c.g.props ∧ e.sweptX = [] ∧ ∀ m ∈ c.g.props, L m) ∧
+    (∀ who, (addMembersP c n ts idn who).2 = .ev e →
+        e.kind = .commit (.addMembers who) c.g.props ∧ e.sweptX = [] ∧ ∀ m ∈ c.g.props, L m) ∧
+    (∀ who, (removeMembersP c n ts idn who).2 = .ev e →
+        e.kind = .commit (.removeLeavers (who.filter (fun m => c.g.members.contains m))) c.g.props ∧ e.sweptX = [] ∧ ∀ m ∈ c.g.props, L m) ∧
+    ((stageCommitP c n ts idn .selfUpdate false).2 = .ev e →
+        e.kind = .commit .selfUpdate c.g.props ∧ e.sweptX = [] ∧ ∀ m ∈ c.g.props, L m) := by
+  intro c
+  have hc : PropsSelfOnly L c := propsSelfOnly_reachable L c0 l h0 hl
+  have key : ∀ b na, (stageCommitP c n ts idn b na).2 = .ev e → e.kind = .commit b c.g.props ∧ e.sweptX = [] ∧ ∀ m ∈ c.g.props, L m := by
+    intro b na hr
+    obtain ⟨h1, h2, h3, _, _⟩ := stageCommitP_ev c n ts idn b na e hc hr
+    exact ⟨h1, h2, h3⟩
+  refine ⟨?_, ?_, ?_, key _ _⟩
+  · intro u hr
+    unfold updateDataP at hr
+    split at hr
+    · cases hr
+    · split at hr
+      · cases hr
+      · exact key _ _ hr
+  · intro who hr
+    unfold addMembersP at hr
+    repeat' split at hr
+    all_goals first | (cases hr; done) | exact key _ _ hr
+  · intro who hr
+    unfold removeMembersP at hr
+    repeat' split at hr
+    all_goals first | (cases hr; done) | exact key _ _ hr
+
+/-- non-vacuity: a history with a leave delivered to an admin while its own commit is pending, a second leave, a rename -/
+example : okRun (fun m => m = 2 ∨ m = 3) wAdmin0
+    [.deliver wLeave2 4, .merge, .data 5 20 21 { name := some 7 }] := by
+  refine ⟨⟨?_, ?_⟩, trivial, trivial, trivial⟩
+  · intro p hp; cases hp
+  · intro _; left; rfl
+
+/-- the invariant without its hypothesis: ONE crafted Remove(other) from a non-admin member breaks it at every receiver -/
+def propsSelfOnly_full : Prop :=
+  ∀ (L : Nat → Prop) (c : Cl) (x : PEv) (nx : Nat), PropsSelfOnly L c → LeaverIn L x → PropsSelfOnly L (deliverP c x nx).1
+
+theorem propsSelfOnly_full_false : ¬ propsSelfOnly_full := by
+  intro h
+  have h2 := h (fun _ => True) wAdmin0 wXRemove 0 (pso_init 0 false 5 [0, 1, 2, 3] [0] 1) (fun _ => trivial)
+  have h3 : (deliverP wAdmin0 wXRemove 0).1.g.xq = [] := h2.1.1
+  revert h3; decide
+
+/-- … and the admin's next operation — here an unrelated `add_members` — carries the non-admin's request out: "the admin's
+    operation changes exactly what it names (modulo members' own leaves)" is false of the code (finding proposal-sweep,
+    corpus/C05/proposal_sweep.trace) -/
+def admin_op_exact_P_full : Prop :=
+  ∀ (c : Cl) (n ts idn : Nat) (who : List Nat) (e : Ev), (addMembersP c n ts idn who).2 = .ev e → e.sweptX = []
+
+theorem admin_op_exact_P_full_false : ¬ admin_op_exact_P_full := by
+  intro h
+  have h2 := h (deliverP wAdmin0 wXRemove 0).1 5 20 21 [8]
+    { n := 5, ts := 20, idnum := 21, cipher := 5, sender := 0, path := [], kind := .commit (.addMembers [8]) [], sweptX := [QP.rm 1 3] } (by decide)
+  revert h2; decide
+
+theorem witness_proposal_sweep :
+    (mergeP (addMembersP (deliverP wAdmin0 wXRemove 0).1 5 20 21 [8]).1).1.g.members = [0, 1, 2, 8] := by decide
+
+/-! ### … at the level of `process_message` (every fuel, through rollback and re-processing) -/
+
+/-- what `auto_commit_only_self_leave_deliver` concludes about receiver `c`, event `x` and the staged commit `ne` -/
+def AutoOK (c : Cl) (x : PEv) (ne : Ev) : Prop :=
+  propKind x = some (.remove x.e.sender) ∧ c.g.active = true ∧ isAdmin c.g c.id = true ∧ c.g.pending = none ∧
+  ne.sender = c.id ∧ ne.path = c.g.path ∧ ne.kind = .commit .selfUpdate ((x.e.sender :: c.g.props).eraseDups) ∧
+  ne.sweptX = c.g.xq ∧ c.id ∉ (x.e.sender :: c.g.props).eraseDups
+
+theorem deliverOnceP_committed (retry : Cl → Option (Cl × Res)) (nx : Nat) (c : Cl) (x : PEv) (ne : Ev)
+    (hretry : ∀ c1 r, retry c1 = some r → r.2 = .proposalCommitted ne → propKind x ≠ none)
+    (h1 : (deliverOnceP retry nx c x).2 = .proposalCommitted ne) : AutoOK c x ne := by
+  have h2 : (step1P retry nx c x).2 = .proposalCommitted ne := by
+    unfold deliverOnceP at h1
+    split at h1
+    · split at h1
+      · split at h1 <;> simp at h1
+      · exact h1
+    · exact h1
+  obtain ⟨p, hp, hact, hpp⟩ := step1P_committed retry nx c x ne hretry h2
+  obtain ⟨h1, h2, h3, h4, h5, h6, h7, _, _, h9, _⟩ := auto_commit_only_self_leave nx _ x.e p ne hpp
+  subst h1
+  exact ⟨hp, hact, by simpa [isAdmin] using h2, by simpa using h3, h4, by simpa using h5, by simpa using h6,
+    by simpa using h7, by simpa using h9⟩
+
+/-- **auto_commit_only_self_leave**, for `process_message` as a whole (every state, event, fuel): the call answers
+    `Proposal(UpdateGroupResult)` — a commit was staged without anybody asking the application — ONLY for a member's Remove
+    of its own leaf, at an active admin with no commit pending; the staged commit is the receiver's own, created in its
+    current state, and references the sender's leave, the leaves queued before and the rest of the store -/
+theorem auto_commit_only_self_leave_deliver (fuel nx : Nat) (c : Cl) (x : PEv) (ne : Ev)
+    (h : (deliverNP fuel nx c x).2 = .proposalCommitted ne) : AutoOK c x ne := by
+  induction fuel generalizing c with
+  | zero => exact deliverOnceP_committed _ nx c x ne (by intro c1 r hr; cases hr) h
+  | succ f ih =>
+    refine deliverOnceP_committed _ nx c x ne ?_ h
+    intro c1 r hr hrr
+    have : r = deliverNP f nx c1 x := by simpa using hr.symm
+    subst this
+    rw [(ih c1 hrr).1]; simp
+
+/-- `proposal_never_changes_roster` for `process_message` as a whole (dedup step included, every fuel): "proposals never take
+    effect by themselves" -/
+theorem proposal_never_changes_roster_deliver (fuel nx : Nat) (c : Cl) (x : PEv) (p : PK) (hk : propKind x = some p) :
+    (deliverNP fuel nx c x).1.g.path = c.g.path ∧ (deliverNP fuel nx c x).1.g.members = c.g.members ∧
+    rosterAndData (deliverNP fuel nx c x).1.g = rosterAndData c.g := by
+  have key : ∀ retry, (deliverOnceP retry nx c x).1.g.path = c.g.path ∧ (deliverOnceP retry nx c x).1.g.members = c.g.members ∧
+      rosterAndData (deliverOnceP retry nx c x).1.g = rosterAndData c.g := by
+    intro retry
+    have h := proposal_never_changes_roster retry nx c x p hk
+    have h' : rosterAndData (step1P retry nx c x).1.g = rosterAndData c.g := by
+      simp [rosterAndData, dataOf, h.2.1, h.2.2.1, h.2.2.2.1, h.2.2.2.2.1, h.2.2.2.2.2.1, h.2.2.2.2.2.2]
+    unfold deliverOnceP
+    split
+    · split
+      · exact ⟨rfl, rfl, rfl⟩
+      · exact ⟨h.1, h.2.1, h'⟩
+    · exact ⟨h.1, h.2.1, h'⟩
+  cases fuel with
+  | zero => exact key _
+  | succ f => exact key _
+
+/-! ### the tie between the two client models (proved in Proofs/Proposal.lean, restated so that they are obligations of this
+    property): where no queued proposal is involved `Model.Proposal` IS `Model.Client`, so the theorems of C01 / C02 / C06 / C07 /
+    C08 / C11 about `deliver` speak about the function the driver runs -/
+theorem proposal_model_agrees_with_client (fuel nx : Nat) (c : Cl) (e : Ev) (hc : PendClean c) (hk : OldKind c.id e) :
+    deliverNP fuel nx c { e := e } = deliverN fuel nx c e := deliverNP_agrees fuel nx c e hc hk
+
+theorem proposal_model_agrees_leave_nonadmin (r1 r2 : Cl → Option (Cl × Res)) (nx : Nat) (c : Cl) (e : Ev) (hk : e.kind = .leave)
+    (hna : isAdmin c.g c.id = false) : step1P r1 nx c { e := e } = step1 r2 nx c e := step1P_leave_nonadmin r1 r2 nx c e hk hna
+
+theorem proposal_model_agrees_ops (c : Cl) (n ts idn : Nat) :
+    (∀ b na, c.g.xq = [] → c.g.props.contains c.id = false → stageCommitP c n ts idn b na = stageCommit c n ts idn b na) ∧
+    (∀ mid mts tok, c.g.xq = [] → sendP c n ts idn mid mts tok = send c n ts idn mid mts tok) ∧
+    (PendClean c → mergeP c = merge c) :=
+  ⟨fun b na h1 h2 => stageCommitP_agrees c n ts idn b na h1 h2, fun mid mts tok h => sendP_agrees c n ts idn mid mts tok h,
+   fun h => mergeP_agrees c h⟩
+
+/-- non-vacuity: the chain / fork witnesses of C01 and C06 are such events at such clients -/
+example : PendClean C06.wAfterGood ∧ OldKind C06.wAfterGood.id C06.wEvil ∧ OldKind 2 C06.wGood := by
+  refine ⟨⟨by decide, by decide⟩, ⟨rfl, ?_⟩, ⟨rfl, ?_⟩⟩
+  · show [] = [] ∧ removesMe C06.wAfterGood.id _ [] = false; exact ⟨rfl, rfl⟩
+  · show [] = [] ∧ removesMe 2 _ [] = false; exact ⟨rfl, rfl⟩
+
+end Proposals
 
 end MdkVerif.Props.C05
